@@ -258,6 +258,10 @@ func (p *VP9Packet) Unmarshal(packet []byte) ([]byte, error) { // nolint:cyclop
 		return nil, errShortPacket
 	}
 
+	// The receiver may have been used before: drop the optional fields of the
+	// previous packet instead of keeping them or appending to them.
+	*p = VP9Packet{videoDepacketizer: p.videoDepacketizer}
+
 	p.I = packet[0]&0x80 != 0
 	p.P = packet[0]&0x40 != 0
 	p.L = packet[0]&0x20 != 0
